@@ -43,7 +43,8 @@ for sid in ids:
         suite = sh("cd /repo && go build ./... && go test -vet=off -count=1 ./...").returncode
         demo_changed = run_demo()
         caught, inconclusive, sigs = [], [], {}
-        for pid in sorted(props):
+        only_own = os.environ.get("MATRIX_CHECKS") == "own"
+        for pid in ([target] if only_own else sorted(props)):
             r = sh("cd /verif && ./check %s %s" % (pid, tier))
             if r.returncode == 1:
                 caught.append(pid)
@@ -65,7 +66,7 @@ for sid in ids:
         },
         "what_was_run": ["git -C /repo apply seeded/%s/patch.diff" % sid, "cd /repo && go build ./... && go test -vet=off -count=1 ./...",
                          "go test -tags verif (demo_test.go copied into /repo/%s) before and after applying the patch" % ddir,
-                         "./check <every property> %s" % tier, "git -C /repo checkout -- ."],
+                         ("./check %s %s (own property only)" % (target, tier)) if os.environ.get("MATRIX_CHECKS") == "own" else "./check <every property> %s" % tier, "git -C /repo checkout -- ."],
         "checks_reporting_violation_%s" % tier: caught, "signatures": sigs, "checks_inconclusive": inconclusive,
         "caught_by_own_property_check": target in caught,
     }
